@@ -170,28 +170,28 @@ def writesOK : List Ev → Bool
   | .stray :: _ => false
   | _ :: r => writesOK r
 
+/-- the record of a delivery slot: (recipient file, position) -/
+def entryOf (c : Nat) (jobs : List Job) (sl : Slot) : Bytes × Nat :=
+  (Clean.fmtqfn (chanaddr c) ((jobs.getD sl.j ⟨0, 0, 0, false, false, 0, 0⟩).id) true, sl.mpos)
+
 /-- the deliveries in flight: (recipient file, position of the recipient's record) -/
 def inflight (c : Nat) (jobs : List Job) (slots : List (Option Slot)) : List (Bytes × Nat) :=
-  slots.filterMap (fun s => match s with
-    | some sl => some (Clean.fmtqfn (chanaddr c) ((jobs.getD sl.j ⟨0, 0, 0, false, false, 0, 0⟩).id) true, sl.mpos)
-    | none => none)
+  slots.filterMap (fun s => s.map (entryOf c jobs))
 
 def inflightBounce (jobs : List Job) (slots : List (Option Slot)) : List Bytes :=
   slots.filterMap (fun s => match s with
     | some sl => some (Clean.fmtqfn (str "bounce/") ((jobs.getD sl.j ⟨0, 0, 0, false, false, 0, 0⟩).id) false)
     | none => none)
 
-/-- every element of `xs` can be matched with a distinct element of `pool` -/
-def consume {α : Type} [BEq α] : List α → List α → Bool
-  | [], _ => true
-  | x :: xs, pool => pool.contains x && consume xs (pool.erase x)
+/-- `xs` is a sub-multiset of `pool`: nothing occurs more often in `xs` than in `pool` -/
+def subMultiset {α : Type} [BEq α] (xs pool : List α) : Bool := xs.all (fun x => decide (xs.count x ≤ pool.count x))
 
 /-- a record changes only for a delivery that was in flight, at most once per delivery, and only
 by writing the single byte 'D' at its position; bounces only for in-flight deliveries; no write
 into a recipient file that is not such a mark -/
 def sendOK (c : Nat) (jobs : List Job) (slots : List (Option Slot)) (evs : List Ev) : Bool :=
-  consume (marksOf evs) (inflight c jobs slots) &&
-  consume (bouncesOf evs) (inflightBounce jobs slots) && writesOK evs
+  subMultiset (marksOf evs) (inflight c jobs slots) &&
+  subMultiset (bouncesOf evs) (inflightBounce jobs slots) && writesOK evs
 
 /-! #### reference reader: which records a report stream asks to mark
 
@@ -216,7 +216,7 @@ def refStep (c : Nat) (jobs : List Job) (st : RefSt) (ch : Byte) : RefSt × List
       let jb := jobs.getD sl.j ⟨0, 0, 0, false, false, 0, 0⟩
       let l := dl.getD 1 0
       ({ rev := [], n := 0, slots := st.slots.set d none },
-       if l = 75 ∨ l = 68 ∨ (l = 90 ∧ jb.dying) then [(Clean.fmtqfn (chanaddr c) jb.id true, sl.mpos)] else [])
+       if l = 75 ∨ l = 68 ∨ (l = 90 ∧ jb.dying) then [entryOf c jobs sl] else [])
   else (st, [])
 
 def refRun (c : Nat) (jobs : List Job) : RefSt → Bytes → List (Bytes × Nat)
